@@ -214,8 +214,8 @@ def generate(ctx):
         cat = DC.catalogue(kind)
         pairs = [(s, s) for s in cat if DC.label(s) not in SLOW] + CROSS[kind]
         for q, (st, su) in enumerate(pairs):
-            e = DC.build_element(st)
-            big = int(e._bfun_counts().sum()) > 16
+            e, berr = guarded(lambda: DC.build_element(st), 30)      # a failing constructor is judged when executed
+            big = bool(berr) or int(e._bfun_counts().sum()) > 16
             mrec = _matrix_mesh(kind, big)
             mesh = DC.make_mesh(mrec)
             nt = mesh.t.shape[1]
@@ -286,7 +286,7 @@ def run(ctx):
                     if k not in keys:
                         keys.add(k)
                         nontrivial += 1
-        ctx.validate('TraceC04', scs)
+        ctx.validate('TraceC04', scs, jvms=8)
     ctx.notes['distinct_nontrivial'] = nontrivial
     ctx.notes['scenarios_from_tlc_universe'] = n_tlc
     ctx.notes['facet_matrix_scenarios_without_facet_basis'] = dropped
